@@ -28,6 +28,9 @@ var c10Defs = []struct {
 	{"+proj=tmerc +lat_0=0 +lon_0=-93 +k=0.9996 +x_0=500000 +y_0=0 +ellps=bessel +towgs84=598.1,73.7,418.2,0.202,0.045,-2.455,6.7 +units=m +no_defs", ""},
 	{"+proj=longlat +datum=WGS84 +axis=wnu +no_defs", ""},
 	{"+proj=longlat +ellps=intl +towgs84=-87,-98,-121 +no_defs", ""},
+	// a definition whose projection set-up fails (standard parallels symmetric about the equator): every call of a
+	// transformer to or from it must report that error, the first call and every later one
+	{"+proj=aea +lat_1=-30 +lat_2=30 +lat_0=0 +lon_0=-96 +x_0=0 +y_0=0 +ellps=GRS80 +units=m +no_defs", ""},
 }
 
 // geographic sample positions (lon, lat), valid for every definition above
@@ -54,7 +57,7 @@ func freshSR(d int) (*proj.SR, error) { return proj.Parse(c10Defs[d-1].text) }
 // samplePoint gives position k in the coordinates of definition d, computed by a brand-new transformer.
 func samplePoint(d, k int) (float64, float64, error) {
 	lon, lat := c10Pos[k-1][0], c10Pos[k-1][1]
-	if d == 1 {
+	if d == 1 || d == 8 { // (nothing can be projected into definition 8: any fixed input will do)
 		return lon, lat, nil
 	}
 	w, err := freshSR(1)
